@@ -31,7 +31,7 @@ L1, L2 = "English (en)", "French (fr)"
 def plan(tier, seed):
     n = 1500 if tier == "quick" else 20000
     return {"shards": 16, "timeout": 900 if tier == "quick" else 3000, "n": n,
-            "floors": {"outputs_with_itext": n // 3, "itext_refs_checked": n * 3, "distinct": 50}}
+            "floors": {"suite_conversions_judged": 500, "outputs_with_itext": n // 3, "itext_refs_checked": n * 3, "distinct": 50}}
 
 
 def sparse_cfg(rng):
